@@ -8,17 +8,27 @@ From Coq Require Import ZArith List Bool.
 From TV Require Import Base.Prelude Spec.CbcCheck Toy.ToyMac Model.C01_RecordPipe Toy.C01_ToyCipher Spec.C01_Contracts
   Model.C02_RecordAccept Spec.C02_Ideal Proofs.C01_RoundTrip Proofs.C01_Delivery Proofs.C01_ToyOk
   Proofs.C02_Cbc Proofs.C02_Accept Proofs.C02_Integrity Proofs.C02_Reject Proofs.C02_Corollaries
-  Proofs.C02_Effects.
+  Proofs.C02_Image Proofs.C02_Effects.
 Import ListNotations.
 Open Scope Z_scope.
 
 (* ---- acceptance set = image of protection under the receiver's key, state and next seq ------------ *)
-(* Full statement aimed at: unprotect r w = Ok (ty,p) <-> exists legal choices, protect_with s (ty,p) = w.
-   Proved: "->" for every mode (below: TLS <= 1.2 through the dispatcher, TLS 1.3 separately) and "<->"
-   for the stream/NULL path (no sender choice).  "<-" is proved for the choices tlslite-ng itself makes
-   (Props/C01.v unprotect_protect); for the other legal choices (longer CBC padding, other explicit
-   IV/nonce, other amount of TLS 1.3 padding) it is exercised by the correspondence only. *)
-Theorem accept_iff_image_partial : forall (CS : Type) (P : Prim CS) (R : CS -> CS -> Prop) (c : Cfg) (md : mode)
+(* TLS <= 1.2, every path (stream/NULL, CBC implicit and explicit IV, EtM, AEAD): for a sender state s in
+   step with the receiver state r (same key, cipher state and next sequence number), the wire
+   (hty,hver,body) is accepted yielding (ty,p) IFF it is protect_with s (ty,p) for some legal choice of CBC
+   padding / IV-block plaintext / explicit nonce (and the header version it carries, which TLS <= 1.2
+   does not authenticate), within the receive limits.  `protect` is the instance with tlslite's choices. *)
+Theorem accept_iff_image : forall (CS : Type) (P : Prim CS) (R : CS -> CS -> Prop) (c : Cfg) (md : mode)
+    (s r : St CS) (hty : Z) (hver : Z * Z) (body : list Z) (ty : Z) (p : list Z),
+  md <> MTls13 -> mode_ok P R md c -> onto_ok P R c md -> dec_bytes P -> bytes_list body -> zlen body < 65536 ->
+  sync R s r ->
+  ((exists r', unprotect c P r (hty, hver, body) = ROk (r', (ty, p))) <->
+   (zlen body <= c_recv_limit c + 2048 /\ zlen p <= c_recv_limit c /\
+    exists ch s', choice_legal c md ch /\ protect_with c P s (ty, p) ch hver = ROk (s', (hty, hver, body)))).
+Proof. exact @accept_iff_image_legacy. Qed.
+
+(* the "->" direction with what else it gives: the two ends are in step again, seq + 1 *)
+Theorem accept_in_image : forall (CS : Type) (P : Prim CS) (R : CS -> CS -> Prop) (c : Cfg) (md : mode)
     (s r r' : St CS) (hty : Z) (hver : Z * Z) (body : list Z) (ty : Z) (p : list Z),
   md <> MTls13 -> mode_ok P R md c -> onto_ok P R c md -> dec_bytes P -> bytes_list body -> zlen body < 65536 ->
   sync R s r ->
@@ -37,8 +47,10 @@ Theorem accept_iff_image_stream : forall (CS : Type) (P : Prim CS) (R : CS -> CS
 Proof. exact @stream_accept_iff. Qed.
 
 (* TLS 1.3: an accepted application_data record is the sealing, under the nonce of the receiver's
-   next sequence number and the header as additional data, of content ++ [type] ++ zero padding *)
-Theorem accept_image_tls13 : forall (CS : Type) (P : Prim CS) (R : CS -> CS -> Prop) (c : Cfg)
+   next sequence number and the header as additional data, of content ++ [type] ++ zero padding.
+   (_partial: only "->"; "<-" is Props/C01.v unprotect_protect_tls13 for the amount of padding tlslite
+   chooses, other amounts: correspondence only) *)
+Theorem accept_iff_image_tls13_partial : forall (CS : Type) (P : Prim CS) (R : CS -> CS -> Prop) (c : Cfg)
     (s r r' : St CS) (hver : Z * Z) (body : list Z) (ty : Z) (data : list Z),
   mode_ok P R MTls13 c -> aead_tight P -> sync R s r ->
   unprotect c P r (23, hver, body) = ROk (r', (ty, data)) ->
